@@ -160,6 +160,12 @@ def run(tier, seed):
                     if d is None: continue
                     if which == 'custom_diff' and dec.get('action') != 'custom': continue
                     counts['decision'] += 1
+                    if which == 'custom_diff' and isinstance(sub, (list, str)) and len(sub) == 0 \
+                            and d == [{'op': 'removerange', 'key': 0, 'length': 0}]:
+                        # the clear-all strategy's "remove the entire range" on an EMPTY list: a range of no items at all, in
+                        # bounds and overlapping nothing -- none of the clauses of the property is about it (counted, not judged)
+                        counts['empty_range_of_clear_all'] = counts.get('empty_range_of_clear_all', 0) + 1
+                        continue
                     if d: nontrivial.add(pyspec.canon([sub, d]))
                     sig, detail = judge_diff(val, sub, d)
                     if sig:
@@ -203,6 +209,7 @@ def replay(path):
             for which in ('local_diff', 'remote_diff', 'custom_diff'):
                 d = dec.get(which)
                 if d is None or (which == 'custom_diff' and dec.get('action') != 'custom'): continue
+                if which == 'custom_diff' and isinstance(sub, (list, str)) and len(sub) == 0 and d == [{'op': 'removerange', 'key': 0, 'length': 0}]: continue
                 s2, detail = judge_diff(val, sub, d)
                 if s2: sig = s2
     print(json.dumps({'signature': sig}, default=str))
